@@ -173,8 +173,6 @@ open DashLive.Gen.Options
 section
 variable {DT : Type} [DecidableEq DT] (C : DTCodec DT)
 
-/-- the names `calculate_cgi_parameters` excludes for every media type -/
-def mediaExclude : List String := ["encrypted", "mode"]
 
 /-- **manifest options → URL text → the media handler's `calculate_options`.**
 For the query string put on the init/media URLs of a media type (mask `use`), with the same
@@ -301,7 +299,7 @@ theorem table_field_names_distinct :
   constructor <;> decide +kernel
 
 /-- a date-time codec that accepts nothing: defaults do not depend on date-time text -/
-def nullCodec : DTCodec Unit := ⟨fun _ => none, fun _ => []⟩
+def nullCodec : DTCodec Unit := { parse := fun _ => none, render := fun _ => [] }
 
 /-- every option's default text parses (`get_default_options` cannot raise), and the default is a
 canonical value of the option's kind -/
@@ -431,7 +429,8 @@ end
 /-! ## the hypotheses are satisfiable; a concrete run through the generated table -/
 
 /-- a lawful toy date-time codec (one date-time, written `1T`) -/
-def toyCodec : DTCodec Unit := ⟨fun s => if s = ascii "1T" then some () else none, fun _ => ascii "1T"⟩
+def toyCodec : DTCodec Unit :=
+  { parse := fun s => if s = ascii "1T" then some () else none, render := fun _ => ascii "1T" }
 
 theorem toyCodec_laws : DtCodecLaws toyCodec where
   roundtrip := by intro d; rfl
